@@ -96,7 +96,7 @@ class C15(Check):
                  'mods': mods, 'decl': decl, 'err': err,
                  'pinata': rng.random() < 0.2, 'shared_io': rng.random() < 0.25,
                  'hang': rng.random() < 0.06, 'run_time': rng.choice([0.5, 3.0]),
-                 'shutdown_in_read': rng.random() < 0.2}
+                 'shutdown_in_read': rng.random() < 0.3, 'read_dur': rng.choice([0.1, 0.2, 0.3, 0.7])}
         return {'shape': shape, 'ops': []}
 
     # ------------------------------------------------------------------ run
@@ -198,7 +198,9 @@ class C15(Check):
                     if d:
                         time.sleep(d)
                 elif shape['shutdown_in_read']:
-                    time.sleep(0.7)
+                    # every later read takes a while: the shutdown arrives in the middle of one (0.7 s is longer
+                    # than the 0.5 s which shutdown_modules grants the poll threads)
+                    time.sleep(shape.get('read_dur', 0.7))
                 rec('read-done', self.name, 'value')
                 return 1.0
 
@@ -429,6 +431,26 @@ class C15(Check):
             if bad:
                 res.append(Violation('C15.shutdown-before-pollers-stopped', 'order',
                                      f'shutdownModule of {downs[0][3]} ran before the poll thread of {bad} was asked to stop'))
+        # no module is shut down while a poll thread is still in the middle of a read which ends within the 0.5 s
+        # that shutdown_modules grants the poll threads (it waits for them before the first shutdownModule)
+        tsb = events('shutdown-begin')[0][1]
+        reads = {}
+        intervals = []
+        for e in log:
+            if e[2] == 'read' and e[4] == 'value' and 'pollThread' in e[5]:
+                reads[e[3]] = e
+            elif e[2] == 'read-done' and e[3] in reads:
+                b = reads.pop(e[3])
+                intervals.append((b[0], e[0], b[1], e[1], e[3]))
+        for d in downs:
+            hit = [iv for iv in intervals if iv[0] < d[0] < iv[1] and iv[3] < tsb + 0.5 - 0.01]
+            if hit:
+                bump('c15.shutdown-during-read-checked')
+                res.append(Violation('C15.shutdown-before-pollers-stopped', 'poll-in-progress',
+                                     f'shutdownModule of {d[3]} ran at t={d[1]:.3f} while the poll thread was inside '
+                                     f'read_value of {hit[0][4]} (t={hit[0][2]:.3f}..{hit[0][3]:.3f}); shutdown began at '
+                                     f't={tsb:.3f} and waits up to 0.5 s for the poll threads'))
+                break
         if 'shutdown_exc' in ctx:
             res.append(Violation('C15.shutdown-raised', 'exception', ctx['shutdown_exc']))
         if shape['shutdown_in_read']:
